@@ -11,9 +11,9 @@
    checked by correspondence (pretty-printing generated ASTs under all spellings/layouts and comparing the parser's
    ASTs and the verdicts; tools/gv/props/c14.py). *)
 From GV.Model Require Import Ast Spec.
-From GV.Model Require Import Lex ValueParse QueryParse OpParse ClauseParse CnfParse FilterParse.
+From GV.Model Require Import Lex ValueParse QueryParse OpParse ClauseParse CnfParse FilterParse ClauseFParse.
 From GV.Proofs Require Import LexProps ValueParseProps ValueSpellProps ValueSpellExample.
-From GV.Proofs Require Import QueryParseProps QuerySpellProps QuerySpellExample ThisProps OpParseProps ClauseParseProps ClauseSpellProps ClauseSpellExample CnfParseProps OpSoundProps ClauseFuelProps CnfSpellProps CnfSpellExample FilterParseProps.
+From GV.Proofs Require Import QueryParseProps QuerySpellProps QuerySpellExample ThisProps OpParseProps ClauseParseProps ClauseSpellProps ClauseSpellExample CnfParseProps OpSoundProps ClauseFuelProps CnfSpellProps CnfSpellExample FilterParseProps ClauseFProps.
 
 Theorem C14_keyword_tables_are_the_documented_ones :
   set_eqb kw_in_keyword ["in"; "IN"] = true /\ set_eqb kw_keys ["keys"; "KEYS"] = true /\
@@ -310,3 +310,8 @@ Print Assumptions C14_filter_parser_extends_the_query_parser.
 Theorem C14_filter_parser_answers : forall rv s, access_f_top rv s <> POof.
 Proof. exact access_f_answers. Qed.
 Print Assumptions C14_filter_parser_answers.
+
+(* the clause parser over queries with filters answers what the filter-free clause parser answers wherever that one answers *)
+Theorem C14_clause_parser_with_filters_extends : forall rv s x, clause_top rv s = x -> x <> PUnk -> clause_f_top rv s = pmap embed_clause x.
+Proof. exact clause_f_top_extends. Qed.
+Print Assumptions C14_clause_parser_with_filters_extends.
